@@ -179,9 +179,14 @@ fn instantiate(templates: &[QT], rows: &[Row], insert: bool, fresh_counter: &mut
 
 /// Apply one update to the model state. Err(TooBig) when the WHERE oracle gives up.
 pub fn apply(state: &mut Dataset, u: &Upd, fresh_counter: &mut usize) -> Result<Effect, EvalError> {
+    apply_sem(state, u, fresh_counter, Sem::default())
+}
+
+/// `apply` under a relaxed reading of the WHERE clause (used for attribution only)
+pub fn apply_sem(state: &mut Dataset, u: &Upd, fresh_counter: &mut usize, sem: Sem) -> Result<Effect, EvalError> {
     let unit: Vec<Row> = vec![Row::new()];
     let eval = |pattern: &[P], state: &Dataset| -> Result<Vec<Row>, EvalError> {
-        let ev = Ev { ds: state, view: View { default: vec![G::Default], named: state.graphs.clone() }, sem: Sem::default() };
+        let ev = Ev { ds: state, view: View { default: vec![G::Default], named: state.graphs.clone() }, sem };
         ev.eval_group(pattern, &None)
     };
     let mut fresh = vec![];
